@@ -128,6 +128,9 @@ pub fn tuples(thorough: bool) -> Vec<Tuple> {
         vec![("b.c-d_e", "x&y=z+w"), ("a", "é %?#@")],
         vec![("checksum", "SHA1:AB,md5:00ff"), ("z", "1")],
         vec![("K9", "/a/b")],
+        // algorithm names one of which is a prefix of the other, followed by a character below ':' -- written in both orders
+        vec![("checksum", "sha3-256:11,SHA3:00")],
+        vec![("CheckSum", "sha3:00,Sha3-256:11"), ("a", "1")],
         vec![("a_b", "1"), ("ab", "2"), ("a.b", "3"), ("a-b", "4"), ("a1", "5"), ("A2", "6"), ("a", "7")],
     ];
     let subs: Vec<Vec<&'static str>> = vec![vec![], vec!["s"], vec!["a b", "é#?", "c.d"], vec!["...", ".a", "%2e"]];
